@@ -34,6 +34,8 @@ class Monitor:
         self.min_distinct = None
         self.dim = None
         self.boxes = {}
+        self.train_label = {}
+        self.relabelled = 0
         from tempest.modes import ModeStatistics
         import tempest.steps.mutate as mut
         import tempest.mcmc as mc
@@ -50,6 +52,7 @@ class Monitor:
                 pts = uu[lab == v]
                 mon.boxes[v] = (pts.min(0), pts.max(0), len(np.unique(pts, axis=0)))
             mon.min_distinct = min(b[2] for b in mon.boxes.values())
+            mon.train_label = {uu[i].tobytes(): int(lab[i]) for i in range(len(lab))}
         hk.wrap(ModeStatistics, "from_particles", before=fp_before)
 
         def fg_before(cls, *a, **k):
@@ -62,6 +65,17 @@ class Monitor:
             ass = np.asarray(k["assignments"] if "assignments" in k else a[4])
             ms = k["mode_stats"] if "mode_stats" in k else a[6]
             mon.check_entry(ass, ms)
+            # a particle that was part of the training set must carry the label it was trained under (the clusterer's
+            # prediction for a point may not depend on which other points are predicted together with it)
+            uu = np.asarray(k["u"] if "u" in k else a[0])
+            if mon.train_label and mon.label_map is not None:
+                diff = [(i, mon.train_label[uu[i].tobytes()], int(ass[i])) for i in range(len(ass)) if uu[i].tobytes() in mon.train_label
+                        and mon.train_label[uu[i].tobytes()] != int(ass[i])]
+                mon.n_label_compared = getattr(mon, "n_label_compared", 0) + sum(1 for i in range(len(ass)) if uu[i].tobytes() in mon.train_label)
+                if diff:
+                    i, lt, la = diff[0]
+                    mon.bad.append(("label-changes-between-training-and-resampling", f"{len(diff)} of {len(ass)} active particles carry another label than the one "
+                                    f"the same particle had when the modes were fitted (e.g. particle {i}: trained as {lt}, moved as {la})"))
         hk.wrap(mut, "parallel_mcmc", before=pm_before, label="parallel_mcmc")
 
     def check_entry(self, ass, ms, potential=False):
@@ -159,6 +173,10 @@ def gen_pool(rng, d, n_batches, N):
         props = np.array([0.85, 0.15])
     batches = []
     for b in range(n_batches):
+        if b == 0:
+            # like the warm-up batches of a real run: prior draws all over the cube (label -1: background)
+            batches.append((rng.random((N, d)), np.full(N, -1)))
+            continue
         lab = rng.choice(k, size=N, p=props)
         u = np.clip(cent[lab] + sds[lab, None] * rng.standard_normal((N, d)), 1e-6, 1 - 1e-6)
         if kind == "duplicates":
@@ -190,7 +208,9 @@ def pool_case(seed, cfg):
     with attach.Hooks() as hk:
         mon = Monitor(hk)
         start_iter = cfg["start_iter"]
-        logl_of = lambda u, lab: -0.5 * np.sum(((u - cent[lab]) / sds[lab, None]) ** 2, axis=1)
+        def logl_of(u, lab):
+            lb = np.where(lab < 0, 0, lab)
+            return -0.5 * np.sum(((u - cent[lb]) / sds[lb, None]) ** 2, axis=1)
         for t in range(cfg["iters"]):
             u, lab = batches[t]
             beta = 0.0 if t == 0 else min(1.0, 0.15 * t)
@@ -210,6 +230,9 @@ def pool_case(seed, cfg):
                 if t >= when:
                     w = np.where(lab_all == dead % len(cent), w * 1e-30, w)
             w = w * rng.dirichlet(np.full(len(w), 2.0))
+            bgm = lab_all < 0
+            if bgm.any() and (~bgm).any():
+                w[bgm] *= 0.004 * w[~bgm].sum() / w[bgm].sum()      # background: 0.4 % of the mass in many tiny weights (trimmed, yet selectable)
             w = w / w.sum()
             # directed scenario: between refits, one *chosen* cluster label (every label gets its turn, incl. the
             # highest one) loses all its trimmed training points but keeps ~0.3% of the resampling mass
@@ -237,6 +260,17 @@ def pool_case(seed, cfg):
                 break
             out["K_seen"].append(int(ms.K))
             cur = sm.get_current()
+            if clusterer.n_clusters_ >= 2:
+                probe = allu[w * N > 1e-6][:200]
+                l1 = np.asarray(clusterer.predict(probe))
+                far = np.vstack([probe, rng.random((8, d)), np.full((1, d), 0.999), np.full((1, d), 0.001)])
+                l2 = np.asarray(clusterer.predict(far))[: len(probe)]
+                l3 = np.asarray(clusterer.predict(probe))
+                out["purity"] = out.get("purity", 0) + len(probe)
+                if not np.array_equal(l1, l2) or not np.array_equal(l1, l3):
+                    nd = int(np.sum(l1 != l2) + np.sum(l1 != l3))
+                    out["bad"].append(("label-changes-between-training-and-resampling", f"iteration {it}: the clusterer's label of a particle depends on which other points are "
+                                       f"predicted with it / on earlier predict calls ({nd} of {len(probe)} labels differ; normalize={cfg['normalize']}, K={clusterer.n_clusters_})"))
             # every pool particle that resampling can select (weight not negligible) is a potential active particle
             live = w * N > 1e-6
             if live.any():
@@ -265,6 +299,7 @@ def pool_case(seed, cfg):
         out["entries"] = mon.n_entries
         out["gaps"] = mon.gaps
         out["potential"] = mon.n_potential
+        out["label_compared"] = getattr(mon, "n_label_compared", 0)
     return out
 
 
@@ -329,6 +364,7 @@ def real_case(cfg, resume=False):
     out["gaps"] = mon.gaps
     out["fits"] = mon.fit_seen
     out["potential"] = mon.n_potential
+    out["label_compared"] = getattr(mon, "n_label_compared", 0)
     return out
 
 
@@ -359,6 +395,8 @@ def run():
         ck.event("kernel entries (parallel_mcmc) checked", val["entries"])
         ck.event("walkers whose actually-used mode was identified by a noise-free probe sweep", val.get("probed", 0))
         ck.event("potential assignments (selectable pool particles) checked", val.get("potential", 0))
+        ck.event("active particles whose label was compared with their training label", val.get("label_compared", 0))
+        ck.event("labels re-predicted inside a different batch (purity of predict)", val.get("purity", 0))
         ck.event("iterations where the predicted label set had a gap", val["gaps"])
         seen = set()
         for key, what in val["bad"]:
@@ -386,6 +424,7 @@ def run():
         ck.event("monitored real runs" + (" (with resume)" if kw["resume"] else ""))
         ck.event("kernel entries (parallel_mcmc) checked", val["entries"])
         ck.event("potential assignments (selectable pool particles) checked", val.get("potential", 0))
+        ck.event("active particles whose label was compared with their training label", val.get("label_compared", 0))
         ck.event("iterations where the predicted label set had a gap", val["gaps"])
         seen = set()
         for key, what in val["bad"]:
